@@ -377,11 +377,16 @@ def real_mod(a, b):
     """np.mod / % on reals: a = q*b + r, q integer, 0 <= r < b for b > 0 (python sign rule)."""
     ta, tb = z3real(a), z3real(b)
     eng = _st.ENGINE
+    key = ("mod", z3.simplify(ta).sexpr(), z3.simplify(tb).sexpr())
+    memo = eng.math.sqrt_memo
+    if key in memo:
+        return SV(memo[key])
     q = eng.fresh("modq", z3.IntSort())
     r = eng.fresh("modr", z3.RealSort())
     eng.assume(ta == z3.ToReal(q) * tb + r, note="real-mod definition")
     eng.assume(z3.If(tb > 0, z3.And(r >= 0, r < tb), z3.And(r <= 0, r > tb)), note="real-mod range")
     eng.check_div(tb)
+    memo[key] = r
     return SV(r)
 
 
